@@ -248,6 +248,9 @@ def table(paths, outcome_value, fix_disc=None, max_rows=200000):
             atoms_of(l, acc)
         for e in p.get("extra_exprs", []):
             atoms_of(e, acc)
+        for k, e in p.get("env", {}).items():
+            if k == "_0" or k.startswith("_0."):
+                atoms_of(e, acc)
     pairs = sorted(acc["pairs"])
     opq = sorted(acc["opaque"])
     discs = sorted(acc["disc"])
